@@ -5,7 +5,9 @@ package kex
 import (
 	"crypto/rsa"
 	"encoding"
+	"io"
 
+	"github.com/fido-device-onboard/go-fdo/internal/nistkdf"
 	"github.com/fido-device-onboard/go-fdo/internal/verif"
 )
 
@@ -58,8 +60,10 @@ func vAgreement(suite Suite, persist bool) {
 	if persist {
 		owner = vRestore(suite, owner)
 	}
+	xA0 := append([]byte{}, xA...) // the sessions clear their copies (which may alias xA) once keys are derived
 	device := suite.New(xA, cipher)
-	xB, err := device.Parameter(verif.M_RandReader, pub)
+	devRand := &vRecReader{r: verif.M_RandReader}
+	xB, err := device.Parameter(devRand, pub)
 	verif.Assert(err == nil, "device Parameter succeeds")
 	err = owner.SetParameter(xB, priv)
 	verif.Assert(err == nil, "owner SetParameter succeeds on an honest device parameter")
@@ -77,7 +81,26 @@ func vAgreement(suite Suite, persist bool) {
 	verif.Assert(len(osvk) == wantSVK, "SVK has exactly the MAC's key length (none for AEAD suites)")
 	verif.Assert(verif.BytesEq(osek, dsek), "owner and device derive the same SEK")
 	verif.Assert(verif.BytesEq(osvk, dsvk), "owner and device derive the same SVK")
+	if pub != nil {
+		// ASYMKEX: the shared secret is the device's fresh random (sent OAEP-encrypted),
+		// the context is the owner's random: keys = KDF(PRF, deviceRandom, ownerRandom, L)
+		verif.Assert(len(devRand.got) >= len(xA0), "device drew its random parameter")
+		ref := nistkdf.KDF(cs.PRFHash, append([]byte{}, devRand.got[:len(xA0)]...), append([]byte{}, xA0...), uint16(len(osek)+len(osvk))*8)
+		verif.Assert(verif.BytesEq(append(append([]byte{}, osek...), osvk...), ref), "ASYMKEX keys are derived from the device's fresh random parameter (shared secret) and the owner's random (context)")
+	}
 	verif.Reached("end")
+}
+
+// vRecReader records what is read from a randomness source
+type vRecReader struct {
+	r   io.Reader
+	got []byte
+}
+
+func (r *vRecReader) Read(p []byte) (int, error) {
+	n, err := r.r.Read(p)
+	r.got = append(r.got, p[:n]...)
+	return n, err
 }
 
 func VerifC14_Agree_ECDH256()     { vAgreement(ECDH256Suite, false) }
